@@ -346,6 +346,15 @@ class PiecewiseConstantBirthDeath(Distribution):
                 > 0.0
             )
 
+            # sampling rate of the epoch of each psi-sampled tip; rho-sampled tips are
+            # masked below: give them 1 so that an epoch without serial sampling
+            # (psi = 0) does not turn log(0) * False into nan
+            psi_tips = torch.where(
+                is_rho_tip,
+                torch.ones_like(y),
+                self.psi.gather(-1, indices_y),
+            )
+
             if self.removal_probability is not None:
                 r = self.removal_probability.gather(-1, indices_y)
                 p0 = self.p0(
@@ -359,7 +368,7 @@ class PiecewiseConstantBirthDeath(Distribution):
                 )
                 log_p += (
                     (
-                        torch.log(self.psi.gather(-1, indices_y) * (r + (1.0 - r) * p0))
+                        torch.log(psi_tips * (r + (1.0 - r) * p0))
                         - self.log_q(
                             A.gather(-1, indices_y),
                             B.gather(-1, indices_y),
@@ -372,7 +381,7 @@ class PiecewiseConstantBirthDeath(Distribution):
             else:
                 log_p += (
                     (
-                        self.psi.gather(-1, indices_y).log()
+                        psi_tips.log()
                         - self.log_q(
                             A.gather(-1, indices_y),
                             B.gather(-1, indices_y),
